@@ -28,7 +28,7 @@ def run(ctx):
         "C12-greedy: S-greedy inputs with deadlines drawn around now + fastest runtime (offsets -2,-1,0,0,1,1,3,6), enforcement on "
         "in 80% of the EDF/FIFO cases -> (a) decisions equal the model's, (b) Coq monitor c12_check on the implementation's "
         "decisions with the DOCUMENTED rule: cancelled <-> deadline < now + min runtime, (c) LSF and enforcement-off runs never "
-        "cancel; distinct = distinct case; non-trivial = enforcement on and some offered task within 1 us of the boundary.")
+        "cancel; distinct = distinct case; non-trivial = enforcement on and some offered task within one step (1 us x the case's scale) of the boundary. Times are in mixed units (see S-greedy).")
     seen = set()
     nt = 0
     tight = past = 0
@@ -36,7 +36,7 @@ def run(ctx):
         near = False
         for ti, (d, _, _) in zip(r["offered"], r["offered_attrs"]):
             f = min(s["runtime"] for s in c["tasks"][ti]["strats"])
-            near = near or abs(d - c["now"] - f) <= 1
+            near = near or abs(d - c["now"] - f) <= c.get("scale", 1)
             tight += d == c["now"] + f
             past += d < c["now"] + f
         k = json.dumps(c, sort_keys=True)
